@@ -99,7 +99,10 @@ let () =
           let o = 2 * n + 4 * q in
           let r = { rminx = z_of_int a.(o); rminy = z_of_int a.(o+1); rmaxx = z_of_int a.(o+2); rmaxy = z_of_int a.(o+3) } in
           Buffer.add_string b " q";
-          List.iter (fun p -> Buffer.add_string b (Printf.sprintf " %d" (int_of_z p.pidx))) (query_two_d_tree tree r)
+          (* the explicit-stack loop (query_stack_never_overflows: equal to the recursive model) *)
+          (match query_two_d_tree_stk tree r with
+           | Some res -> List.iter (fun p -> Buffer.add_string b (Printf.sprintf " %d" (int_of_z p.pidx))) res
+           | None -> Buffer.add_string b " STACK-OVERFLOW")
         done;
         print_endline (Buffer.contents b)
       end else if toks.(0) = "CERT" then begin
